@@ -307,7 +307,7 @@ def family(thorough: bool):
     add("L0", A)
 
     # ---- nesting 1 -----------------------------------------------------------------------
-    add("L1.carr", carrs(A, (2,) if not thorough else (2, 3)))
+    add("L1.carr", carrs(A, (1, 2, 3)))
     add("L1.sarr", sarrs(A))
     add("L1.rec2", recs(A, (2,)))
     add("L1.rec3", recs(ATOMS_SMALL + (S2,) if not thorough else ATOMS_MID + (FLAG_BV3, SFIX_1_m1), (3,)))
@@ -321,6 +321,16 @@ def family(thorough: bool):
     tin = list(tinherits(thorough))
     add("L1.tinherit", tin)
     add("L1.bf", bitfields(thorough))
+
+    # records with core cohdl.Array fields (the array construction forms - partial default lists, Null, Full -
+    # are applied to every composition made of plain records, cohdl.Array and atoms, see c17_render.ad_eligible)
+    cf = (("carr", BIT, 2), ("carr", BV(2), 2), ("carr", BV(2), 3), ("carr", S2, 1))
+    cset = set(cf)
+    add("L2.carrrec", recs((BIT, BV(2), BOOL) + cf, (2,), need=cset))
+    add("L2.carrrec", (("rec", fs, (1, 1)) for a in cf for p in (BIT, BV(2)) for fs in ((a, p), (p, a))))
+    if thorough:
+        add("L2.carrrec", recs((BIT, BV(2)) + cf[:2], (3,), need=cset))
+        add("L2.carrrec", recs((ENUM_U2, UFIX_0_m1, U2) + cf[:3], (2,), need=cset))
 
     # ---- nesting 2 -----------------------------------------------------------------------
     bf_repr = (("bf", 4, (("fb", 0), ("fv", 3, 1, "bv"), ("fv", 2, 1, "u"))), BF_INNER3)
